@@ -159,9 +159,14 @@ theorem opt_step (orc : Oracle) (m : PM) (f : Frame) (rest : List Frame) (o o0 :
     (hname : o0.name = o.name) (hty : o0.ty = o.ty) (hlist : o0.flags.list = o.flags.list)
     (hd : PlainDecl o0) (hts : OptToks o ts) :
     ∃ f' res, parseToks orc m ts = { m with frames := f' :: rest } ∧ AtItem f' ∧ f'.level = f.level ∧
-      f'.cfg.opts = pre ++ res :: post ∧ f'.cfg.flags = f.cfg.flags ∧
-      res.vals = o.vals ∧ res.info = o0.info ∧ res.flags.deprecated = false := by
+      f'.cfg.opts = pre ++ res :: post ∧ f'.cfg.flags = f.cfg.flags ∧ f'.cfg.info.pff = f.cfg.info.pff ∧
+      res.vals = o.vals ∧ res.info = o0.info ∧ res.flags.deprecated = false ∧
+      res.flags.list = o0.flags.list ∧ res.comment = o0.comment := by
   have hnm : plainName o.name := hname ▸ hd.name
+  have hpff : ∀ (r : OptRef) (x : Opt) (n : Nat), ((f.cfg.setOpt r x).setLine n).info.pff = f.cfg.info.pff := by
+    intro r x n
+    have h1 : ∀ (c : Cfg) (n : Nat), (c.setLine n).info.pff = c.info.pff := by intro c n; cases c; rfl
+    rw [h1, setOpt_info]
   have hlook := getoptPath_top f.cfg o.name pre o0 post hnm hopts hpre (by rw [hname]; exact titleEq_refl _ _)
   have hget := getOpt_top f.cfg pre o0 post hopts
   have hty4 : o0.ty = .int ∨ o0.ty = .float ∨ o0.ty = .bool ∨ o0.ty = .str := by
@@ -172,7 +177,7 @@ theorem opt_step (orc : Oracle) (m : PM) (f : Frame) (rest : List Frame) (o o0 :
     rw [ht] at ht'; injection ht' with ht'; subst ht'
     have := C01_assign_denotes orc m f rest o.name t n1 n2 n3 ⟨[], pre.length⟩ o0 v hrun hfr hat.st hat.nd hat.cm
       hlook.1 hlook.2 hget hty4 hd.noParse hd.noValid (by rw [hlist]; exact hl) hd.notMulti (by rw [hty]; exact hconv) hd.free
-    refine ⟨_, Opt.mk o0.info { o0.flags with reset := false, modified := true } o0.subs [v] o0.comment, this, ⟨rfl, hat.cm, ?_⟩, rfl, ?_, ?_, ?_, rfl, hd.notDep⟩
+    refine ⟨_, Opt.mk o0.info { o0.flags with reset := false, modified := true } o0.subs [v] o0.comment, this, ⟨rfl, hat.cm, ?_⟩, rfl, ?_, ?_, hpff _ _ _, ?_, rfl, hd.notDep, rfl, rfl⟩
     · intro r o' hr ho'
       simp only at hr ho'
       injection hr with hr; subst hr
@@ -189,7 +194,7 @@ theorem opt_step (orc : Oracle) (m : PM) (f : Frame) (rest : List Frame) (o o0 :
     have := C01_empty_list_item orc m f rest o.name n1 false n2 n3 n4 ⟨[], pre.length⟩ o0 hrun hfr hat.st hat.nd
       hlook.1 hlook.2 hget hty' (by rw [hlist]; exact hl) hd.free
     simp only [asgTok, Bool.false_eq_true, if_false] at this
-    refine ⟨_, (freeValue (o0.markAsg false)).1, this, ⟨rfl, hat.cm, ?_⟩, rfl, ?_, ?_, ?_, ?_, ?_⟩
+    refine ⟨_, (freeValue (o0.markAsg false)).1, this, ⟨rfl, hat.cm, ?_⟩, rfl, ?_, ?_, hpff _ _ _, ?_, ?_, ?_, by cases o0; rfl, by cases o0; rfl⟩
     · intro r o' hr ho'
       simp only at hr ho'
       injection hr with hr; subst hr
@@ -210,24 +215,25 @@ theorem opt_step (orc : Oracle) (m : PM) (f : Frame) (rest : List Frame) (o o0 :
     have := C01_list_item orc m f rest o.name n1 false n2 n3 c0 t0 n0 seq n4 ⟨[], pre.length⟩ o0 v0 vs hrun hfr hat.st hat.nd hat.cm
       hlook.1 hlook.2 hget hty4 hd.noParse hd.noValid (by rw [hlist]; exact hl) hd.free (by rw [hty]; exact hconv0) (by rw [hty]; exact hcs)
     simp only [asgTok, Bool.false_eq_true, if_false] at this
-    have hinfoVals : ∀ (o' : Opt) (l : List Val), (o'.appendVals l).info = o'.info ∧ (o'.appendVals l).flags.deprecated = o'.flags.deprecated := by
+    have hinfoVals : ∀ (o' : Opt) (l : List Val), (o'.appendVals l).info = o'.info ∧ (o'.appendVals l).flags.deprecated = o'.flags.deprecated ∧
+        (o'.appendVals l).flags.list = o'.flags.list ∧ (o'.appendVals l).comment = o'.comment := by
       intro o' l; induction l generalizing o' with
-      | nil => exact ⟨rfl, rfl⟩
-      | cons a as ih => simp only [Opt.appendVals]; rw [(ih _).1, (ih _).2]; cases o'; exact ⟨rfl, rfl⟩
-    refine ⟨_, (o0.markAsg false).appendVals (v0 :: vs), this, ⟨rfl, hat.cm, ?_⟩, rfl, ?_, ?_, ?_, ?_, ?_⟩
+      | nil => exact ⟨rfl, rfl, rfl, rfl⟩
+      | cons a as ih => simp only [Opt.appendVals]; rw [(ih _).1, (ih _).2.1, (ih _).2.2.1, (ih _).2.2.2]; cases o'; exact ⟨rfl, rfl, rfl, rfl⟩
+    refine ⟨_, (o0.markAsg false).appendVals (v0 :: vs), this, ⟨rfl, hat.cm, ?_⟩, rfl, ?_, ?_, hpff _ _ _, ?_, ?_, ?_, by rw [(hinfoVals _ _).2.2.1]; cases o0; rfl, by rw [(hinfoVals _ _).2.2.2]; cases o0; rfl⟩
     · intro r o' hr ho'
       simp only at hr ho'
       injection hr with hr; subst hr
       rw [getOpt_setLine, getOpt_setOpt _ _ _ _ hget] at ho'
       injection ho' with ho'; subst ho'
-      rw [(hinfoVals _ _).2]; cases o0; exact hd.notDep
+      rw [(hinfoVals _ _).2.1]; cases o0; exact hd.notDep
     · simp only [opts_setLine]; exact setOpt_top _ _ _ _ _ hopts
     · show ((f.cfg.setOpt _ _).setLine _).flags = f.cfg.flags
       have : ∀ (c : Cfg) (n : Nat), (c.setLine n).flags = c.flags := by intro c n; cases c; rfl
       rw [this, setOpt_flags]
     · rw [C01_list_item_values, hv]; simp
     · rw [(hinfoVals _ _).1]; cases o0; rfl
-    · rw [(hinfoVals _ _).2]; cases o0; exact hd.notDep
+    · rw [(hinfoVals _ _).2.1]; cases o0; exact hd.notDep
 
 /-- the tokens of a whole flat configuration: the options' tokens one after the other -/
 inductive FlatToks : List Opt → List (Tok × Nat) → Prop
@@ -252,14 +258,16 @@ theorem flat_steps (orc : Oracle) : ∀ (os os0 : List Opt) (ts : List (Tok × N
     (∀ p ∈ pre, ∀ o ∈ os, titleEq f.cfg.flags.nocase p.name o.name = false) →
     List.Pairwise (fun a b => titleEq f.cfg.flags.nocase a.name b.name = false) os →
     ∃ f' done, parseToks orc m ts = { m with frames := f' :: rest } ∧ AtItem f' ∧ f'.level = f.level ∧
-      f'.cfg.opts = pre ++ done ∧ f'.cfg.flags = f.cfg.flags ∧ All2 (fun r o => r.vals = o.vals) done os := by
+      f'.cfg.opts = pre ++ done ∧ f'.cfg.flags = f.cfg.flags ∧ f'.cfg.info.pff = f.cfg.info.pff ∧
+      All2 (fun r o => r.vals = o.vals) done os ∧
+      All2 (fun r o0 => r.info = o0.info ∧ r.flags.list = o0.flags.list ∧ r.comment = o0.comment) done os0 := by
   intro os
   induction os with
   | nil =>
     intro os0 ts m f rest pre hft hal hrun hfr hat hopts _ _
     cases hft
     cases hal
-    refine ⟨f, [], ?_, hat, rfl, by simpa using hopts, rfl, All2.nil⟩
+    refine ⟨f, [], ?_, hat, rfl, by simpa using hopts, rfl, rfl, All2.nil, All2.nil⟩
     obtain ⟨frames, srcs, status, diags, trace, pi, md⟩ := m
     simp only at hfr; subst hfr
     rfl
@@ -271,13 +279,13 @@ theorem flat_steps (orc : Oracle) : ∀ (os os0 : List Opt) (ts : List (Tok × N
       | cons hA hAs =>
         rename_i o0 os0'
         obtain ⟨hname, hty, hlist, hd⟩ := hA
-        obtain ⟨f1, res, e1, hat1, hlev1, hopts1, hfl1, hv1, hi1, hdep1⟩ :=
+        obtain ⟨f1, res, e1, hat1, hlev1, hopts1, hfl1, hpf1, hv1, hi1, hdep1, hls1, hcm1⟩ :=
           opt_step orc m f rest o o0 pre os0' ts1 hrun hfr hat hopts (fun p hp => hpre p hp o (by simp)) hname hty hlist hd h1
         rw [parseToks_append, e1]
         have hresname : res.name = o.name := by
           have : res.name = o0.name := by simp [Opt.name, hi1]
           rw [this, hname]
-        obtain ⟨f2, done, e2, hat2, hlev2, hopts2, hfl2, hv2⟩ :=
+        obtain ⟨f2, done, e2, hat2, hlev2, hopts2, hfl2, hpf2, hv2, hd2⟩ :=
           ih os0' tss { m with frames := f1 :: rest } f1 rest (pre ++ [res]) h2 hAs hrun rfl hat1
             (by rw [hopts1]; simp)
             (by
@@ -290,6 +298,7 @@ theorem flat_steps (orc : Oracle) : ∀ (os os0 : List Opt) (ts : List (Tok × N
                 rw [hresname]
                 exact (List.pairwise_cons.mp hpw).1 o' ho')
             (by rw [hfl1]; exact (List.pairwise_cons.mp hpw).2)
-        refine ⟨f2, res :: done, e2, hat2, by rw [hlev2, hlev1], by rw [hopts2]; simp, by rw [hfl2, hfl1], All2.cons hv1 hv2⟩
+        refine ⟨f2, res :: done, e2, hat2, by rw [hlev2, hlev1], by rw [hopts2]; simp, by rw [hfl2, hfl1], by rw [hpf2, hpf1],
+          All2.cons hv1 hv2, All2.cons ⟨hi1, hls1, hcm1⟩ hd2⟩
 
 end Confuse
